@@ -361,7 +361,11 @@ def _linectr_inv(ctx: Ctx, res: RuleResult):
             if isinstance(v_inc, ast.Name):
                 defs = [n for n in m.body_nodes() if isinstance(n, ast.Assign) and len(n.targets) == 1
                         and isinstance(n.targets[0], ast.Name) and n.targets[0].id == v_inc.id]
-                okc = len(defs) == 1 and defs[0].value is cnt
+                # one definition, or the count in one arm and the constant 0 in the other (`n = t.count(nl) if test else 0`): the
+                # increment runs under `if n:` so the zero arm adds nothing
+                zero = [d_ for d_ in defs if isinstance(d_.value, ast.Constant) and d_.value.value == 0]
+                real = [d_ for d_ in defs if d_ not in zero]
+                okc = len(real) == 1 and real[0].value is cnt and len(zero) <= 1
             else:
                 okc = v_inc is cnt
         res.ob(site, 'line += number of newline_char occurrences in the consumed text', okc)
